@@ -469,8 +469,8 @@ print(json.dumps([[list(sel[i]), res[i]] for i in range(len(sel))]))
 
 
 # ---- histories in which the file system and the environment change between calls -------------------------------------------
-W_DIRS = ['home1', 'home1/sub', 'home2', 'd', 'd/e', '.hid']
-W_FILES = ['home1/a.txt', 'home1/sub/s.txt', 'home2/b.txt', 'd/a.txt', 'd/e/c.txt', 'top.txt', '.h.txt', '.hid/x.txt', 'd/A.TXT']
+W_DIRS = ['home1', 'home1/sub', 'home2', 'd', 'd/e', '.hid', 'lnk', 'home3']       # `lnk` / `home3` are symlinks at other times
+W_FILES = ['home1/a.txt', 'home1/sub/s.txt', 'home2/b.txt', 'd/a.txt', 'd/e/c.txt', 'top.txt', '.h.txt', '.hid/x.txt', 'd/A.TXT', 'lnk/a.txt']
 W_LINKS = [('lnk', 'd'), ('home3', 'home1'), ('d/up', '..'), ('dang', 'nowhere')]
 W_HOMES = ['home1', 'home2', 'home3', 'nohome', 'd']
 W_CALLS = ([('glob', p, fl) for p in ('~/*.txt', '~', '~/sub/*', '~/**', '*.txt', '**/*.txt', '*/', 'lnk/*', '**', 'd/**/*.txt', '*/*/', 'dang', '[dl]*/a.txt',
@@ -692,6 +692,57 @@ def run_world(desc):
                 # Hypothesis re-raises our AssertionError, or wraps it (FlakyFailure) when process-wide state made the replay differ
                 if not out.violations:
                     raise
+            if desc['name'].endswith('-0'):
+                # scripted transitions: every descriptor is answered before and after one change of the world; the answers after the
+                # change must be those of a fresh interpreter that never saw the earlier world
+                base_ops = [('mkdir', 'd'), ('touch', 'd/a.txt'), ('mkdir', 'd/e'), ('touch', 'd/e/c.txt'), ('touch', 'top.txt'), ('mkdir', 'home1'),
+                            ('touch', 'home1/a.txt'), ('home', 'home1')]
+                scripts = [
+                    ('symlink becomes a directory', [('link', 'lnk', 'd')], [('unlink', 'lnk'), ('mkdir', 'lnk'), ('touch', 'lnk/a.txt')]),
+                    ('directory becomes a symlink', [('mkdir', 'lnk'), ('touch', 'lnk/a.txt')], [('rmtree', 'lnk'), ('link', 'lnk', 'd')]),
+                    ('HOME starts to exist', [('home', 'home2')], [('mkdir', 'home2'), ('touch', 'home2/b.txt')]),
+                    ('HOME stops existing', [], [('rmtree', 'home1')]),
+                    ('HOME moves', [], [('home', 'd')]),
+                    ('HOME becomes a symlink', [], [('rmtree', 'home1'), ('link', 'home1', 'd')]),
+                    ('file appears', [], [('touch', 'd/A.TXT'), ('touch', '.h.txt')]),
+                    ('file disappears', [], [('rm', 'd/a.txt'), ('rm', 'top.txt')]),
+                    ('dangling link becomes valid', [('link', 'dang', 'nowhere')], [('mkdir', 'nowhere'), ('touch', 'nowhere/a.txt')]),
+                    ('link retargeted', [('link', 'lnk', 'd')], [('unlink', 'lnk'), ('link', 'lnk', 'd/e')]),
+                    ('directory emptied', [], [('rmtree', 'd'), ('mkdir', 'd')]),
+                    ('cycle appears', [], [('link', 'd/up', '..')]),
+                ]
+                for si, (label, before, after) in enumerate(scripts):
+                    root = os.path.join(tmp, 'script%d' % si)
+                    os.mkdir(root)
+                    clear_every_cache()
+                    hist = []
+                    for op in base_ops + before:
+                        world_apply(root, op)
+                        hist.append(list(op))
+                    for d in W_CALLS:
+                        world_call(d, root)
+                    hist.append(['call-all'])
+                    for op in after:
+                        world_apply(root, op)
+                        hist.append(list(op))
+                    warm = [jsonable(world_call(d, root)) for d in W_CALLS]
+                    r = subprocess.run([sys.executable, '-c', WORLD_SCRIPT % {'verif': VERIF_DIR, 'calls': json.dumps(jsonable(W_CALLS)), 'root': root,
+                                                                             'reverse': False}],
+                                       capture_output=True, text=True, timeout=600, env=dict(env, HOME=os.environ['HOME']))
+                    if r.returncode != 0:
+                        raise HarnessError('fresh interpreter failed: ' + r.stderr[-500:])
+                    fresh = json.loads([l for l in r.stdout.splitlines() if l.startswith('[')][-1])
+                    stats['fresh'] += 1
+                    changed = 0
+                    for d, w, f in zip(W_CALLS, warm, fresh):
+                        out.evaluations += 1
+                        if w != f:
+                            out.violation({'world': hist, 'script': label, 'call': jsonable(d), 'got': w, 'want': f,
+                                           'problem': 'answer after a change of the world differs from a fresh interpreter looking at the same world'},
+                                          size=len(hist), bucket=('world-script', label))
+                    out.nontrivial(('world-script', label))
+                    import shutil
+                    shutil.rmtree(root, ignore_errors=True)
     finally:
         if home0 is None:
             os.environ.pop('HOME', None)
